@@ -537,5 +537,8 @@ def do_replay(pid, vh, path, t0, seed):
     if bad:
         print("VIOLATION property=%s replay=%s" % (pid, path))
         return 1
-    print("replay: property %s holds on the script" % pid)
+    if fails:
+        print("replay: property %s: only known findings on the script (%d failed judgements)" % (pid, len(fails)))
+    else:
+        print("replay: property %s holds on the script" % pid)
     return 0
